@@ -31,6 +31,16 @@ pub trait HijackAll: Sized {
     fn write_usize(self, _v: usize) {}
     fn write_isize(self, _v: isize) {}
     fn write_u64(self, _v: u64) {}
+    fn clone_from(self, _o: &Self) {}
+    fn into(self) -> Self { self }
+    fn deref(self) -> Self { self }
+    fn deref_mut(self) -> Self { self }
+    fn neg(self) -> Self { self }
+    fn not(self) -> Self { self }
+    fn add<R>(self, _r: R) -> Self { self } fn sub<R>(self, _r: R) -> Self { self } fn mul<R>(self, _r: R) -> Self { self } fn div<R>(self, _r: R) -> Self { self } fn rem<R>(self, _r: R) -> Self { self }
+    fn bitand<R>(self, _r: R) -> Self { self } fn bitor<R>(self, _r: R) -> Self { self } fn bitxor<R>(self, _r: R) -> Self { self } fn shl<R>(self, _r: R) -> Self { self } fn shr<R>(self, _r: R) -> Self { self }
+    fn add_assign<R>(self, _r: R) {} fn sub_assign<R>(self, _r: R) {} fn mul_assign<R>(self, _r: R) {} fn div_assign<R>(self, _r: R) {} fn rem_assign<R>(self, _r: R) {}
+    fn bitand_assign<R>(self, _r: R) {} fn bitor_assign<R>(self, _r: R) {} fn bitxor_assign<R>(self, _r: R) {} fn shl_assign<R>(self, _r: R) {} fn shr_assign<R>(self, _r: R) {}
 }
 impl<T> HijackAll for T {}
 }
